@@ -604,6 +604,19 @@ def run(run):
         for f in db.find(cls_t='joint_ptr', short='create'):
             check_acquire_guard(run, db, f, 'joint_ptr::create')
             k += 1
+        # any other function of the library that allocates raw memory and then constructs into it (a helper split off from the
+        # entry points above, a new fast path): found by what it does, not by its name
+        done = {g.key for g in db.find(short='allocate_unique') + db.find(short='allocate_array_unique') if qual_is(g, 'detail', g.short)} | \
+               {g.key for g in db.find(cls_t='joint_ptr', short='create')}
+        for f in db.fns.values():
+            if f.pattern or f.key in done or not f.name.startswith('foonathan::memory') or f.kind in ('ctor', 'dtor'):
+                continue
+            if not any(h in f.loc for h in ('/smart_ptr.hpp', '/deleter.hpp', '/joint_allocator.hpp')):
+                continue        # the property is about the object-creating helpers of these headers
+            allocs = [t for e, t in flow.call_events(f) if t.get('short') in ('allocate_node', 'allocate_array') and 'recv' in t]
+            news = [e for e in f.events() if (top_term(e) or {}).get('k') == 'new' and (top_term(e) or {}).get('placement')]
+            if allocs and news:
+                check_acquire_guard(run, db, f, strip_ns(f.name).split('<')[0])
         if k < 6:
             run.broke('object-creating helpers not instantiated (%d) [%s]' % (k, cfg))
         if check_construct(run, db) < 2:
